@@ -557,7 +557,11 @@ fn count_c09(r: &mut Rng) -> usize {
     }
 }
 
-fn gen_c09(r: &mut Rng, _t: Tier, _job: u64) -> Plan {
+fn gen_c09(r: &mut Rng, _t: Tier, job: u64) -> Plan {
+    if job % 6_000 == 777 {
+        // names of 8..50 MiB: the definition spans packets
+        return super::props3::gen_c04_giant_definition(r);
+    }
     let mut cmds = Vec::new();
     if r.chance(1, 8) {
         // one prepared statement executed several times: every execution declares its own
